@@ -28,6 +28,11 @@ RULES = {
     'AGG-TABLE': 'each public aggregation method hands over the aggregation class its name promises',
     'REDUCER-NAME': 'each aggregation class uses the pandas reducers its name promises (Count->count, Size->size, Sum->sum, ...)',
     'WINDOW-FIFO': 'window history deques are appended at the right and decayed from the left',
+    'CARRY-PLUMB': 'carry-over plumbing of the batch-independent operations: the carried rows are concatenated in front of the '
+                   'batch (concat([carry, batch])), the pandas operation runs on that concatenation, exactly the carried rows are '
+                   'dropped from its result (rolling: result.iloc[len(carry):]; cumulative: the one seed row), and the new carry '
+                   'is a suffix of the concatenation (cumulative: the last row of the result)',
+    'EWM-ROWS': 'a per-row operation emits one row per row of the batch, not only the value it carries to the next batch',
     'OPERATOR-TABLE': 'every operator method of OperatorMixin maps to the operator function of its name with its operands in '
                       'the order the Python data model prescribes (reflected methods: swapped); map_partitions rebuilds the '
                       'positional argument order (partial_by_order inserts the non-stream arguments at their recorded positions)',
@@ -1351,3 +1356,156 @@ def check_full_positional(ctx, R):
                     else:
                         raise AnalysisError('Full.on_old: unrecognised spelling of the positional drop: %s' % st_[:80])
         R.ob('FULL-POSITIONAL', ctx.construct(fn), step, bad is None and n > 0, bad or '', ctx.where(fn, fn.node.lineno), None, n)
+
+
+# ----------------------------------------------------------------------------- C11: carry-over plumbing
+def _only_call(r, pred):
+    hits = [k for k, (c, s_, l) in enumerate(r.calls) if isinstance(c, ast.Call) and pred(c)]
+    return hits
+
+
+def check_carry_plumb(ctx, R):
+    """identity / order facts of rolling_accumulator and _cumulative_accumulator on their let-normal forms.  Not decided:
+    how many rows the rolling carry has to keep (the slice bound) and what pandas computes."""
+    import re
+    from ..symexpr import SymEval, nf
+    M = ctx.model
+    # ---- rolling
+    fn = M.function(DFC, 'rolling_accumulator')
+    con = ctx.construct(fn)
+    P = fn.params()
+    carry, batch = P[0], P[1]
+    bad = {}
+    n = 0
+    for r in [x for x in SymEval(M, None, name_calls=True).run(fn) if not x.raised and x.ret is not None]:
+        n += 1
+        if not (isinstance(r.ret, ast.Tuple) and len(r.ret.elts) == 2):
+            raise AnalysisError('%s does not return (carry, result)' % con)
+        lens = _only_call(r, lambda c: nf(c) == 'len(%s)' % carry)
+        nonempty = None
+        for c_, o in r.conds:
+            t = c_.replace(' ', '')
+            if lens and t in ('C%d' % lens[0], 'C%d>0' % lens[0]):
+                nonempty = o
+            if lens and t in ('notC%d' % lens[0], 'C%d==0' % lens[0]):
+                nonempty = not o
+        cc = _only_call(r, lambda c: isinstance(c.func, ast.Attribute) and c.func.attr == 'concat')
+        if nonempty:
+            if len(cc) != 1 or nf(r.calls[cc[0]][0].args[0]) != '[%s,%s]' % (carry, batch):
+                bad.setdefault('concat-order', 'with a carry the frame is %s, not concat([%s, %s]) (carried rows first)' % (
+                    nf(r.calls[cc[0]][0])[:60] if cc else 'not concatenated', carry, batch))
+                continue
+            DF = 'C%d' % cc[0]
+        else:
+            if cc:
+                bad.setdefault('concat-order', 'an empty carry is concatenated')
+            DF = batch
+        ag = _only_call(r, lambda c: nf(c.func).startswith('getattr(') and '.rolling(' in nf(c.func))
+        if len(ag) != 1 or not nf(r.calls[ag[0]][0].func).startswith('getattr(%s.rolling(window),' % DF):
+            bad.setdefault('aggregates-concatenation', 'the rolling aggregate is not computed on the concatenation %s' % DF)
+            continue
+        AGG = 'C%d' % ag[0]
+        newc, res = nf(r.ret.elts[0]), nf(r.ret.elts[1])
+        if not lens or res != '%s.iloc[C%d:]' % (AGG, lens[0]):
+            bad.setdefault('drops-carried-rows', 'the emitted result is %s, not <aggregate>.iloc[len(%s):]: the rows of the carry are '
+                           'not exactly the rows that are dropped' % (res[:60], carry))
+        if not re.fullmatch(re.escape(DF) + r'\.(iloc|loc)\[[^:\]]+:\]', newc):
+            bad.setdefault('carry-is-suffix', 'the new carry is %s, not a suffix %s.iloc[-k:] / %s.loc[t:] of the concatenation'
+                           % (newc[:60], DF, DF))
+    for tok in ('concat-order', 'aggregates-concatenation', 'drops-carried-rows', 'carry-is-suffix'):
+        R.ob('CARRY-PLUMB', con, tok, tok not in bad and n > 0, bad.get(tok, ''), ctx.where(fn, fn.node.lineno), None, n)
+    # ---- cumulative
+    fn = M.function(DFC, '_cumulative_accumulator')
+    con = ctx.construct(fn)
+    P = fn.params()
+    carry, batch = P[0], P[1]
+    bad = {}
+    n = 0
+    for r in [x for x in SymEval(M, None, name_calls=True).run(fn) if not x.raised and x.ret is not None]:
+        n += 1
+        if not (isinstance(r.ret, ast.Tuple) and len(r.ret.elts) == 2):
+            raise AnalysisError('%s does not return (carry, result)' % con)
+        newc, res = nf(r.ret.elts[0]), nf(r.ret.elts[1])
+
+        def outcome_of(name):
+            ks = _only_call(r, lambda c: nf(c) == 'len(%s)' % name)
+            if not ks:
+                return None
+            for c_, o in r.conds:
+                t = c_.replace(' ', '')
+                if t in ('C%d' % ks[0], 'C%d>0' % ks[0]):
+                    return o
+                if t in ('notC%d' % ks[0], 'C%d==0' % ks[0]):
+                    return not o
+            return None
+        has_batch, has_carry = outcome_of(batch), outcome_of(carry)
+        if has_batch is False:
+            if (newc, res) != (carry, batch):
+                bad.setdefault('empty-batch', 'an empty batch does not leave the carry untouched (returns %s, %s)' % (newc[:40], res[:40]))
+            continue
+        cc = _only_call(r, lambda c: isinstance(c.func, ast.Attribute) and c.func.attr == 'concat')
+        if has_carry:
+            if len(cc) != 1 or nf(r.calls[cc[0]][0].args[0]) != '[%s,%s]' % (carry, batch):
+                bad.setdefault('concat-order', 'the seed row is not put in front of the batch (concat([%s, %s]))' % (carry, batch))
+                continue
+            DF = 'C%d' % cc[0]
+        else:
+            DF = batch
+        ag = _only_call(r, lambda c: nf(c.func) == 'getattr(%s,op)' % DF)
+        if len(ag) != 1:
+            bad.setdefault('aggregates-concatenation', 'the cumulative operation is not applied to %s' % DF)
+            continue
+        AGG = 'C%d' % ag[0]
+        if newc != '%s.iloc[-1:]' % AGG:
+            bad.setdefault('carry-is-suffix', 'the new seed is %s, not the last row of the result' % newc[:60])
+        want = ('REST(%s)' % AGG, '%s.iloc[1:]' % AGG) if has_carry else (AGG,)
+        if res not in want:
+            bad.setdefault('drops-carried-rows', 'the emitted result is %s, expected %s (the seed row, and only it, is dropped)'
+                           % (res[:60], want[0]))
+    for tok in ('empty-batch', 'concat-order', 'aggregates-concatenation', 'drops-carried-rows', 'carry-is-suffix'):
+        R.ob('CARRY-PLUMB', con, tok, tok not in bad and n > 0, bad.get(tok, ''), ctx.where(fn, fn.node.lineno), None, n)
+    # ---- wiring: the accumulators are folded with state exposure switched on and the right initial carry
+    fr = M.cls(DFC, 'Rolling').find('_known_aggregation')
+    fc = None
+    for c in M.module(DFC).classes.values():
+        if '_cumulative_aggregation' in c.methods:
+            fc = (c, c.methods['_cumulative_aggregation'])
+    for label, cls_, f_, acc_name, kw in (('rolling', M.cls(DFC, 'Rolling'), fr, 'rolling_accumulator', {'returns_state': 'True', 'start': 'self.start', 'window': 'self.window'}),
+                                          ('cumulative', fc[0] if fc else None, fc[1] if fc else None, '_cumulative_accumulator', {'returns_state': 'True', 'start': '()'})):
+        if f_ is None:
+            raise AnalysisError('anchor vanished: the %s aggregation method' % label)
+        ok, detail = True, ''
+        ps = [r for r in SymEval(M, cls_, no_splice=('accumulate_partitions',)).run(f_) if not r.raised]
+        for r in ps:
+            calls = [c for c, s_, l in r.calls if isinstance(c, ast.Call) and isinstance(c.func, ast.Attribute) and c.func.attr == 'accumulate_partitions']
+            if len(calls) != 1 or not calls[0].args or nf(calls[0].args[0]) != acc_name:
+                ok, detail = False, 'accumulate_partitions is not folded with %s' % acc_name
+                continue
+            got = {k.arg: nf(k.value) for k in calls[0].keywords if k.arg}
+            for k_, v_ in kw.items():
+                if got.get(k_) != v_:
+                    ok, detail = False, 'accumulate_partitions(..., %s=%s), expected %s' % (k_, got.get(k_), v_)
+        R.ob('CARRY-PLUMB', ctx.construct(f_), 'wiring', ok and bool(ps), detail, ctx.where(f_, f_.node.lineno))
+
+
+def check_ewm_rows(ctx, R):
+    """EWMean.on_new walks the batch row by row; what it emits must have a row for each of them"""
+    from ..symexpr import SymEval, nf
+    M = ctx.model
+    cls = M.cls(AGG, 'EWMean')
+    fn = cls.find('on_new')
+    con = ctx.construct(fn)
+    batch = fn.params()[2]
+    bad, n = None, 0
+    for r in [x for x in SymEval(M, cls, name_calls=True).run(fn) if not x.raised and x.ret is not None]:
+        if not (isinstance(r.ret, ast.Tuple) and len(r.ret.elts) == 2):
+            raise AnalysisError('%s does not return (state, result)' % con)
+        n += 1
+        st_, res = r.ret.elts
+        comps = st_.elts if isinstance(st_, ast.Tuple) else [st_]
+        per_row = any(l and 'len(%s)' % batch in _expand(r, l[-1][0].replace(' ', ''), 2) for c, s_, l in r.calls) or \
+            'ELEM(' in nf(res)
+        if per_row and any(nf(res) == nf(c) for c in comps):
+            bad = ('the batch is processed row by row but the emitted result is the value carried to the next batch (one row): '
+                   'for a batch of k rows, k-1 rows of what pandas.ewm().mean() returns are never emitted')
+    R.ob('EWM-ROWS', con, 'one-row-per-row', bad is None and n > 0, bad or '', ctx.where(fn, fn.node.lineno), None, n)
